@@ -17,8 +17,8 @@ from mutants import M
 print("## 12. Calibration: which checks catch which changes\n")
 print("Every check was run on the unchanged (repaired) tree at many seeds until silent (section 10), then against changes that *compile and pass")
 print("the repository's 69 tests*: (a) pattern mutants written by me (`calibration/mutants.py`), (b) changes written by independent")
-print("sub-agents that were given only the text of one property and a scratch worktree - two waves; the second wave was also told which")
-print("mutations already existed and asked for different, harder ones (`seeded/<id>/`: `patch.diff`, `demo.rs` failing with / passing without")
+print("sub-agents that were given only property texts and a scratch worktree - three waves; the second wave was also told which")
+print("mutations already existed and asked for different, harder ones, the third was organised by source file and bug category (`seeded/<id>/`: `patch.diff`, `demo.rs` failing with / passing without")
 print("the change, `notes.md`, `meta.json` with what I re-ran to confirm it). `scripts/mutation_run.py` applies each change (to `/repo`'s working")
 print("tree, or with `--sandbox` to a scratch worktree plus a copy of /verif), re-runs the repository tests, runs the check(s) and always undoes")
 print("the change. Nothing of this is ever committed to `/repo`. Results are logged in `calibration/results.jsonl`.\n")
@@ -39,8 +39,9 @@ rows = []
 for d in sorted(glob.glob(os.path.join(ROOT, "seeded", "*"))):
     m = json.load(open(os.path.join(d, "meta.json")))
     rows.append((m["id"], m["property"], m.get("summary", "see notes.md")))
-table("(b) seeded changes from sub-agents, wave 1", [r for r in rows if "-w2" not in r[0]])
+table("(b) seeded changes from sub-agents, wave 1", [r for r in rows if "-w2" not in r[0] and not r[0].startswith("W3")])
 table("(c) seeded changes from sub-agents, wave 2", [r for r in rows if "-w2" in r[0]])
+table("(d) seeded changes from sub-agents, wave 3 (organised by source file; each agent saw all 19 property texts)", [r for r in rows if r[0].startswith("W3")])
 print(open(os.path.join(ROOT, "calibration", "strengthened.md")).read())
 print("""Detection power is statistical outside the enumerated sub-spaces: a change that needs, say, a dimension of exactly 17 *and*
 rank 5 will not be hit by the quick tier; the evidence histograms (cells, ranks, depths, path counts, pass kinds) make
